@@ -586,7 +586,9 @@ def step (R : Runner) (N : NextRunner) (K : MkRunner) (L : Nat) : Runner := fun 
       let span := env.mkSpan before st1.pos
       let new := st1.alt
       if f.rejectIf.eval v then
-        .fail (St.addAltErr env { st1 with alt := old } before (env.ek.userErr span f.msg))
+        -- "replace the new alt with the mapper error (since it overrides it)": the failures recorded inside the
+        -- rejected sub-parse are discarded together with its pending error (ghost log rolled back accordingly)
+        .fail (St.addAltErr env { st1 with alt := old, log := st.log } before (env.ek.userErr span f.msg))
       else
         .ok (m.bind (.tag f.tag v)) (St.readdAlt env { st1 with alt := old } new)
   | .tryMapWith f a =>
